@@ -107,23 +107,19 @@ fn combined_equals_separate_2() {
 #[kani::unwind(14)]
 fn non_sgr_changes_nothing() {
     let vals: [u16; 2] = kani::any();
-    let sub1: bool = kani::any();
     let action: u8 = kani::any();
     let ignore: bool = kani::any();
     kani::assume(action != b'm' || ignore);
     let inter: [u8; 2] = kani::any();
-    let ni: usize = kani::any();
-    kani::assume(ni <= 2);
     let prior = any_style();
     let mut cap = capture(prior);
-    cap.csi_dispatch(&params_from(&vals, &[false, sub1], 2), &inter[..ni], ignore, action);
+    cap.csi_dispatch(&params_from(&vals, &[false, false], 2), &inter, ignore, action);
     assert!(cap.style == prior && cap.ready.is_none(), "only un-ignored `m` sequences change the style");
-    cap.esc_dispatch(&inter[..ni], ignore, action);
-    cap.osc_dispatch(&[&inter[..ni]], ignore);
-    cap.hook(&params_from(&vals, &[false, sub1], 2), &inter[..ni], ignore, action);
-    cap.put(action);
-    cap.unhook();
-    assert!(cap.style == prior && cap.ready.is_none() && cap.printable.is_empty());
+    cap.csi_dispatch(&params_from(&vals, &[false, true], 2), &[], ignore, action);
+    assert!(cap.style == prior && cap.ready.is_none(), "only un-ignored `m` sequences change the style");
+    cap.esc_dispatch(&inter, ignore, action);
+    cap.osc_dispatch(&[&inter], ignore);
+    assert!(cap.style == prior && cap.ready.is_none() && cap.printable.is_empty(), "ESC and OSC sequences change nothing");
     kani::cover!(action == b'm');
     kani::cover!(action == b'H');
     core::mem::forget(cap);
